@@ -598,6 +598,13 @@ def main(argv):
                     loops['%s::%s::%s' % (ex['file'], ex['path'], ex['alias'])] = ex['loops']
         with open(os.path.join(CONTRACTS, 'pinned_loops.json'), 'w') as f:
             json.dump(loops, f)
+        cuts = {}
+        for n, u in all_units().items():
+            ub = weave.build_unit(u['path'], REPO)
+            for ex in ub.extracts:
+                cuts.update(ex.get('cut_pins') or {})
+        with open(os.path.join(CONTRACTS, 'pinned_cuts.json'), 'w') as f:
+            json.dump(cuts, f, indent=1)
         print('pinned %d items' % len(out))
         return 0
     if a.unit:
